@@ -14,11 +14,13 @@ Cluster(c, a) == Reach(c, {a}, c.t * c.t)
 \* group id of source a by first appearance in input order: number of distinct clusters among the sources up to the first member of a's cluster
 FirstAppearanceId(c, a) == Cardinality({Min(Cluster(c, b)) : b \in 1..Min(Cluster(c, a))})
 SepTie(c) == \E a, b \in 1..N(c) : a # b /\ D2(c, a, b) = c.t * c.t
-ExpectedGid(c, a) == CASE c.grouping = "grouper" -> FirstAppearanceId(c, a) [] c.grouping = "supplied" -> c.supplied[a] [] OTHER -> a
+ExpectedGid(c, a) == CASE c.grouping = "grouper" -> FirstAppearanceId(c, a) [] c.grouping \in {"supplied", "both"} -> c.supplied[a] [] OTHER -> a
 Window(c, a) == {p \in Grid(c.h, c.w) : LargeLo(c.pos[a][2], c.fit[1], c.h) <= p[1] /\ p[1] < LargeHi(c.pos[a][2], c.fit[1], c.h)
                                          /\ LargeLo(c.pos[a][1], c.fit[2], c.w) <= p[2] /\ p[2] < LargeHi(c.pos[a][1], c.fit[2], c.w)}
 Clause(c) ==
-  IF c.raised THEN "valid_scene_raises"
+  \* a source whose whole fit window is masked is refused (documented ValueError)
+  IF \E a \in 1..N(c) : Window(c, a) \ PixSetOf(c.mask) = {} THEN (IF c.raised THEN "ok" ELSE "completely_masked_source_must_raise")
+  ELSE IF c.raised THEN "valid_scene_raises"
   ELSE IF c.id_col # [a \in 1..N(c) |-> a] THEN "rows_in_input_order_with_ids_1_to_n"
   ELSE IF c.grouping = "grouper" /\ SepTie(c) THEN "ok"
   ELSE IF \E a \in 1..N(c) : c.group_id[a] # ExpectedGid(c, a) THEN "group_ids_are_single_linkage_clusters_or_supplied"
@@ -31,6 +33,7 @@ Clause(c) ==
   ELSE IF \E a \in 1..N(c) : c.check_recovery /\ (Abs(c.x_fit[a] - c.x_true[a]) > c.tol_pos \/ Abs(c.y_fit[a] - c.y_true[a]) > c.tol_pos) THEN "recovers_rendered_positions"
   ELSE IF \E a \in 1..N(c) : c.check_recovery /\ Abs(c.flux_fit[a] - c.flux_true[a]) > c.tol_flux THEN "recovers_rendered_fluxes"
   ELSE IF c.check_recovery /\ c.resid_k > c.tol_resid THEN "residual_image_is_zero"
+  ELSE IF ~c.maskblind_ok THEN "values_under_the_mask_do_not_matter"
   ELSE IF ~c.scaled_ok THEN "fluxes_scale_with_the_image"
   ELSE IF ~c.iter_equal THEN "iterative_with_one_iteration_equals_single"
   ELSE "ok"
